@@ -125,7 +125,7 @@ fn markers(t: &T, hidden: &[Path]) -> HashMap<Vec<u8>, (u32, u32)> {
 }
 
 pub fn run(ctx: &mut Ctx) {
-    let total = ctx.n(150_000, 3_000_000);
+    let total = ctx.n(150_000, 1_500_000);
     for case in ctx.cases(total) {
         ctx.begin_case(case);
         let mut rng = ctx.rng(case);
